@@ -53,6 +53,7 @@ type crossFullNode struct {
 	Incoming  *route.Router
 	PeerR     *route.Router
 	inH       http.Handler
+	peerH     http.Handler
 	objs      []*inject.Object
 	stops     []func()
 }
@@ -162,6 +163,7 @@ func crossStartFullNode(o crossFullOpts) (*crossFullNode, error) {
 		n.Stop()
 		return nil, fmt.Errorf("router handler not built")
 	}
+	n.peerH = ph
 	stop, err := o.Net.Serve(o.Addr, ph)
 	if err != nil {
 		n.Stop()
@@ -169,6 +171,11 @@ func crossStartFullNode(o crossFullOpts) (*crossFullNode, error) {
 	}
 	n.stops = append(n.stops, stop)
 	return n, nil
+}
+
+// PostPeerBatch sends a JSON batch to the node's PEER router handler (as another refinery node would).
+func (n *crossFullNode) PostPeerBatch(dataset, apiKey string, evs []crossBatchEvent) (int, string) {
+	return crossPostBatch(n.peerH, dataset, apiKey, evs)
 }
 
 func (n *crossFullNode) Stop() {
